@@ -9,6 +9,7 @@ no-op / vetoed commands, failed writes, reads, snapshots at any point, through a
 object, and store objects being thrown away and re-created (`restart` = cache drop).
 -/
 import KrillModel.ES.Lemmas
+import KrillModel.ES.ObsLemmas
 import KrillModel.ES.WalLemmas
 import KrillModel.ES.Reg
 import KrillModel.ES.Bag
@@ -44,6 +45,20 @@ theorem replay_eq_live (hiv : A.initVersion ≤ 1) (ops : List (Op A)) (i : Nat)
   refine ⟨?_, ?_, key e hI i⟩
   · exact key _ (hI.clearForScratch) 0
   · exact key _ (hI.clearCaches) 0
+
+/-- The oracle's `replay_eq_live` predicate (`Obs.allAgree` over the results of every live store
+object, a fresh store and a from-scratch replay, as printed by `check <h>`) holds of the model
+after every history, for every renderer of results. -/
+theorem replay_eq_live_obs (hiv : A.initVersion ≤ 1) (ops : List (Op A)) (R : Obs.Render A) :
+    let e := run (Ent.empty : Ent A) ops
+    Obs.allAgree [Obs.oRet R (getLatest e 0).2, Obs.oRet R (getLatest e 1).2,
+      Obs.oRet R (getLatest e 2).2, Obs.oRet R (loadFresh e), Obs.oRet R (loadScratch e)] = true := by
+  intro e
+  obtain ⟨h1, h2, h3⟩ := replay_eq_live hiv ops 0
+  obtain ⟨_, _, h4⟩ := replay_eq_live hiv ops 1
+  obtain ⟨_, _, h5⟩ := replay_eq_live hiv ops 2
+  simp only [e, h1, h2, h3, h4, h5, Obs.allAgree]
+  simp
 
 /-- **snapshot_any_point.**  Whatever prefix state of the log sits in `snapshot.json` – i.e. a
 snapshot taken at *any* earlier point of the history – loading from it and applying the
